@@ -219,3 +219,35 @@ def concurrency_limits(ninja):
             if len(started) != 14 or any(v != 1 for v in started.values()): bad.append(('real-once', '-j%d: commands started %r (each of 14 expected exactly once)' % (j, sorted(started.items()))))
         finally: shutil.rmtree(d, ignore_errors=True)
     return bad
+
+def jobserver_child_interrupted(ninja):
+    """a command that is itself killed by SIGINT (ninja is NOT signalled): ninja stops with status 130 'interrupted by user';
+    every jobserver token must be back in the FIFO, including the one of the command that died"""
+    bad = []
+    # (ninja then WAITS for the other running commands instead of killing them -- it was not interrupted itself -- so they are short)
+    for victim in ('b', 'c'):
+        d = mk('c06i'); p = None
+        try:
+            open(d + '/build.ninja', 'w').write('rule g\n  command = echo $$$$ > $out.pid; exec sleep 2\nbuild a: g\nbuild b: g\nbuild c: g\ndefault a b c\n')
+            fifo = d + '/fifo'; os.mkfifo(fifo)
+            fd = os.open(fifo, os.O_RDWR | os.O_NONBLOCK); os.write(fd, b'++')
+            env = dict(os.environ, MAKEFLAGS=' -j3 --jobserver-auth=fifo:' + fifo)
+            p = subprocess.Popen([ninja, '-C', d], stdout=subprocess.PIPE, stderr=subprocess.STDOUT, env=env, start_new_session=True)
+            if not all(wait_for(d + '/%s.pid' % x) for x in 'abc'):
+                bad.append(('child-int-setup', 'three commands did not start under a 2-token jobserver + implicit slot')); continue
+            time.sleep(0.05)
+            os.kill(int(open(d + '/%s.pid' % victim).read().split()[0]), signal.SIGINT)
+            try: out, _ = p.communicate(timeout=30)
+            except subprocess.TimeoutExpired: bad.append(('child-int-hang', 'ninja did not exit within 30 s after one of its commands was killed by SIGINT')); continue
+            try: left = len(os.read(fd, 100))
+            except BlockingIOError: left = 0
+            os.close(fd)
+            if left != 2:
+                bad.append(('token-leak-child-interrupted', 'jobserver FIFO held 2 tokens before and %d after a run in which command %s was killed by SIGINT (ninja exit %d: %s)'
+                            % (left, victim, p.returncode, out.decode(errors='replace').strip().split('\n')[-1][:100])))
+        finally:
+            if p and p.poll() is None:
+                try: os.killpg(p.pid, signal.SIGKILL)
+                except OSError: pass
+            shutil.rmtree(d, ignore_errors=True)
+    return bad
